@@ -350,8 +350,56 @@ impl Agg {
     }
 }
 
+/// Liveness bound of the harness: a simulated run takes milliseconds (a few
+/// seconds at most); one that is still going after this much wall-clock time
+/// means that a call into the crate does not return.  The watchdog reports
+/// the run (by its seed, which regenerates it) and ends the process, since a
+/// stuck thread cannot be stopped.  Wall-clock time is read only here; it
+/// decides nothing inside a run.
+fn stall_secs() -> u64 {
+    std::env::var("VERIF_STALL_SECS").ok().and_then(|s| s.parse().ok()).unwrap_or(300)
+}
+static STALL_CTX: Mutex<Option<(String, String, String)>> = Mutex::new(None);
+
+fn report_stall(family: &str, base_seed: u64, run: u64) -> ! {
+    let ctx = STALL_CTX.lock().map(|g| g.clone()).unwrap_or(None);
+    let detail = format!("run {} (seed {}) of family {} did not finish within {} s of wall-clock time (a run takes milliseconds): a call into the crate does not return", run, run_seed(base_seed, run), family, stall_secs());
+    match ctx {
+        Some((prop, dir, profile)) => {
+            let _ = std::fs::create_dir_all(&dir);
+            let path = format!("{}/{}-{}-{}.json", dir, prop, base_seed, run);
+            let j = J::obj()
+                .set("property", J::s(prop.clone()))
+                .set("clause", J::s("terminates"))
+                .set("signature", J::s("stalled"))
+                .set("detail", J::s(detail.clone()))
+                .set("family", J::s(family))
+                .set("profile", J::s(profile))
+                .set("tier", J::s(if thorough() { "thorough" } else { "quick" }))
+                .set("seed", J::u(base_seed))
+                .set("run_index", J::u(run))
+                .set("run_seed", J::u(run_seed(base_seed, run)))
+                .set("repo_rev", J::s(repo_rev()))
+                .set("stalled", J::Bool(true))
+                .set("choices", J::Arr(vec![]));
+            let _ = std::fs::write(&path, j.to_string_pretty());
+            println!("VIOLATION property={} replay={}", prop, path);
+            println!("  clause {}/terminates [stalled]: {}", prop, detail);
+            std::process::exit(1);
+        }
+        None => {
+            eprintln!("coapsim: harness error: {}", detail);
+            std::process::exit(2);
+        }
+    }
+}
+
 fn batch(family: &str, prop: Option<&str>, base_seed: u64, runs: u64, threads: usize, known: &[Known], keep_hashes: bool, deadline: Option<Instant>) -> Result<Agg, String> {
     let next = AtomicU64::new(0);
+    let t0 = Instant::now();
+    let cur: Vec<AtomicU64> = (0..threads).map(|_| AtomicU64::new(0)).collect();
+    let since: Vec<AtomicU64> = (0..threads).map(|_| AtomicU64::new(0)).collect();
+    let finished = AtomicU64::new(0);
     // once this many runs have violated the property the verdict is settled:
     // stop early (matters when a defect also makes every run slow)
     let failing_runs = AtomicU64::new(0);
@@ -359,14 +407,40 @@ fn batch(family: &str, prop: Option<&str>, base_seed: u64, runs: u64, threads: u
     let total = Mutex::new(Agg::new());
     let err: Mutex<Option<String>> = Mutex::new(None);
     std::thread::scope(|s| {
-        for _ in 0..threads {
-            s.spawn(|| {
+        // watchdog
+        s.spawn(|| {
+            let limit_ms = stall_secs() * 1000;
+            while finished.load(Ordering::Relaxed) < threads as u64 {
+                std::thread::sleep(std::time::Duration::from_millis(200));
+                let now = t0.elapsed().as_millis() as u64;
+                for t in 0..threads {
+                    let c = cur[t].load(Ordering::Relaxed);
+                    if c != 0 && now.saturating_sub(since[t].load(Ordering::Relaxed)) > limit_ms && cur[t].load(Ordering::Relaxed) == c {
+                        report_stall(family, base_seed, c - 1);
+                    }
+                }
+            }
+        });
+        for t in 0..threads {
+            let (cur, since, finished) = (&cur, &since, &finished);
+            let (next, failing_runs, total, err) = (&next, &failing_runs, &total, &err);
+            s.spawn(move || {
                 let mut a = Agg::new();
+                struct Fin<'a>(&'a AtomicU64);
+                impl Drop for Fin<'_> {
+                    fn drop(&mut self) {
+                        self.0.fetch_add(1, Ordering::Relaxed);
+                    }
+                }
+                let _fin = Fin(finished);
                 loop {
+                    cur[t].store(0, Ordering::Relaxed);
                     let i = next.fetch_add(1, Ordering::Relaxed);
                     if i >= runs || failing_runs.load(Ordering::Relaxed) >= ENOUGH_FAILING_RUNS {
                         break;
                     }
+                    since[t].store(t0.elapsed().as_millis() as u64, Ordering::Relaxed);
+                    cur[t].store(i + 1, Ordering::Relaxed);
                     if let Some(d) = deadline {
                         if i % 256 == 0 && Instant::now() > d {
                             break;
@@ -418,6 +492,7 @@ fn batch(family: &str, prop: Option<&str>, base_seed: u64, runs: u64, threads: u
                         }
                     }
                 }
+                cur[t].store(0, Ordering::Relaxed);
                 total.lock().unwrap().merge(a);
             });
         }
@@ -573,6 +648,7 @@ fn cmd_run(args: &[String]) -> Result<i32, String> {
     println!("coapsim: property={} family={} tier={} profile={} VERIF_SEED={} runs={} threads={} repo={}", prop_id, pc.family, tier, profile, seed, runs, threads, repo_rev());
     let t0 = Instant::now();
     let deadline = max_secs.map(|s| t0 + std::time::Duration::from_secs(s));
+    *STALL_CTX.lock().unwrap() = Some((prop_id.to_string(), replays.to_string(), profile.to_string()));
     let agg = batch(pc.family, Some(prop_id), seed, runs, threads, &known, false, deadline)?;
     let wall = t0.elapsed().as_secs_f64();
 
@@ -740,6 +816,29 @@ fn cmd_replay(args: &[String]) -> Result<i32, String> {
     let clause = j.get("clause").and_then(|x| x.as_str()).ok_or("no clause")?.to_string();
     let sig = j.get("signature").and_then(|x| x.as_str()).unwrap_or(&clause).to_string();
     set_thorough(j.get("tier").and_then(|x| x.as_str()) == Some("thorough"));
+    if j.get("stalled").is_some() {
+        // a run that did not end: regenerate it from its seed under the same
+        // liveness bound
+        let rs = j.get("run_seed").and_then(|x| x.as_u64()).ok_or("no run_seed")?;
+        let fam = family.to_string();
+        let (tx, rx) = std::sync::mpsc::channel();
+        std::thread::spawn(move || {
+            let mut ch = Ch::seeded(rs);
+            let r = guard(|| run_family(&fam, &mut ch, false));
+            let _ = tx.send(r.is_ok());
+        });
+        return match rx.recv_timeout(std::time::Duration::from_secs(stall_secs())) {
+            Ok(_) => {
+                println!("replay of {} ended: the stall is not reproduced on this tree", path);
+                Ok(0)
+            }
+            Err(_) => {
+                println!("VIOLATION property={} replay={}", prop, path);
+                println!("  reproduced clause {}/terminates [stalled]: the run (seed {}) does not end within {} s", prop, rs, stall_secs());
+                std::process::exit(1);
+            }
+        };
+    }
     let list: Vec<u64> = j.get("choices").and_then(|x| x.as_arr()).ok_or("no choices")?.iter().filter_map(|x| x.as_u64()).collect();
     let mut ch = Ch::replay(list);
     let o = guard(|| run_family(family, &mut ch, true)).map_err(|e| format!("harness panic: {}", e))??;
